@@ -108,3 +108,25 @@ def gen_live(rng, flavour):
                 faults[str(n)] = {"transport": kind}
     sc["faults"] = faults
     return sc
+
+
+def gen_live_closure(rng):
+    """Live sessions for C20: several markets closing one after another with the clock moving past one hour."""
+    n_markets = rng.choice([2, 3, 4])
+    markets = []
+    t = marketgen.T0_MS + rng.randint(0, 1_000_000)
+    for i in range(n_markets):
+        knobs = {"n_updates": (2, rng.choice([3, 5])), "p_removal": 0.0, "p_suspend": 0.0, "p_inplay": 0.0, "p_close": 1.0, "p_repeat_close": rng.choice([0.0, 0.4]), "p_reopen_after_close": rng.choice([0.0, 0.3]), "n_runners": (2, 3), "spacing": rng.choice(["normal", "slow"])}
+        m = marketgen.gen_market(rng, i, knobs, t0=t)
+        markets.append(m)
+        t = m["updates"][-1]["pt"] + rng.choice([600_000, 3_000_000, 3_599_000, 3_601_000, 3_660_000, 7_200_000, 10_000])
+    strategies = [{"name": "L0", "markets": list(range(n_markets)), "client": 0}]
+    if rng.random() < 0.6:
+        strategies.append({"name": "E1", "markets": list(range(n_markets)), "client": 0, "empty_filter": True})
+    if rng.random() < 0.3:
+        strategies.append({"name": "L2", "markets": list(range(n_markets)), "client": 0})
+    sc = {"world": "B", "cfg": {"max_workers": 32}, "clients": [{"limit": 5000}], "markets": markets, "strategies": strategies, "tape": [0] * 400, "max_steps": 2000, "faults": {}, "exchange_events": []}
+    mix = {"p_act": rng.choice([0.0, 0.5]), "p_place": 0.8, "w_cancel": 1, "w_update": 0, "w_replace": 0, "packages": False}
+    for mi in range(n_markets):
+        gen_actions(rng, markets[mi], "L0", mix)
+    return sc
